@@ -5,7 +5,7 @@
 (* block-partition invariance, concatenation) and the pair is printed with the *)
 (* spec's encoding and expected value so that the harness can replay it into   *)
 (* the implementation (G direction).                                           *)
-EXTENDS Naturals, Integers, Sequences, SequencesExt, FiniteSets, TLC, Json, AvroLayout
+EXTENDS Naturals, Integers, Sequences, SequencesExt, FiniteSets, TLC, Json, AvroLayout, AvroResolve
 
 CONSTANT Depth          \* 0: leaves only; 1: one level of array/map/union/record over leaves
 
@@ -76,6 +76,43 @@ InvPartition == Dom => \A ch \in ChoiceStreams :
                             /\ (~MatchCanon(t, v, L.b, EmptyFn, Opts0) \/ L.b = enc.b)
 InvConcat == Dom => LET d == Dec(t, enc.b \o <<99>> \o enc.b, Len(enc.b) + 2, EmptyFn) IN d.st = "ok" /\ VEq(d.v, nrm.v)
 InvNormIdempotent == Dom => LET n2 == Norm(t, nrm.v, EmptyFn, Opts0) IN n2.ok /\ VEq(n2.v, nrm.v)
+
+\* ---- C08 on the same universe: identity, field reordering, skipping, promotion ------------------------------------
+InvResolveIdentity == Dom => LET x == Resolve(t, t, enc.b, EmptyFn, EmptyFn) IN x.st = "ok" /\ VEq(x.v, nrm.v) /\ x.p = Len(enc.b) + 1
+\* reader with the fields in reverse order: same record
+InvResolveReorder == (Dom /\ t.k = "record" /\ Len(t.fields) = 2) =>
+                       LET r == [t EXCEPT !.fields = << t.fields[2], t.fields[1] >>]
+                           x == Resolve(t, r, enc.b, EmptyFn, EmptyFn)
+                       IN x.st = "ok" /\ VEq(x.v, nrm.v)
+\* reader without the first field: the second field's value is intact (the skip consumed exactly one value)
+InvResolveSkip == (Dom /\ t.k = "record" /\ Len(t.fields) = 2) =>
+                    LET r == [t EXCEPT !.fields = << t.fields[2] >>]
+                        x == Resolve(t, r, enc.b, EmptyFn, EmptyFn)
+                    IN x.st = "ok" /\ x.p = Len(enc.b) + 1 /\ VEq(ValAt(x.v, t.fields[2].name), ValAt(nrm.v, t.fields[2].name))
+\* a reader field the writer does not have and that has no default: a resolution error
+InvResolveMissing == (Dom /\ t.k = "record") =>
+                       Resolve(t, [t EXCEPT !.fields = Append(@, Fld("zz", P("int")))], enc.b, EmptyFn, EmptyFn).st = "raise"
+\* promotions: the integer as an IEEE double; incompatible primitives: an error
+InvResolvePromote == (Dom /\ t.k \in {"int", "long"}) =>
+                       LET x == Resolve(t, P("double"), enc.b, EmptyFn, EmptyFn) IN
+                       x.st = "ok" /\ x.v = VFloat(IntToDouble(IOf(v)).f) /\ Resolve(t, P("string"), enc.b, EmptyFn, EmptyFn).st = "raise"
+\* reader union: the branch of the same type wins over a promotion
+InvResolveUnion == (Dom /\ t.k = "int") =>
+                     LET x == Resolve(t, [k |-> "union", br |-> << P("double"), P("int") >>], enc.b, EmptyFn, EmptyFn) IN x.st = "ok" /\ x.v = v
+
+\* ---- C09 / C10 on the same universe ---------------------------------------------------------------------------------
+\* the branch a writer must take is one the datum conforms to, for every value of the universe offered to every union of the universe
+UnionTypes == { u \in Types : u.k = "union" }
+AllVals == UNION { Vals(u) : u \in Types }
+InvChooseConforms == \A u \in UnionTypes :
+                       LET ch == ChooseBranch(u.br, v, EmptyFn, Opts0) IN
+                       /\ (ch.st = "ok" => Conf(u.br[ch.i], ch.v, EmptyFn, Opts0, TRUE))
+                       /\ (ch.st = "raise" => ~Conforms(u, v, EmptyFn, Opts0))
+                       /\ (Conforms(u, v, EmptyFn, Opts0) => ch.st \in {"ok", "unspec"})
+\* strict conformance implies conformance; conformance is insensitive to the tuple option for values without tuples
+InvStrictImplies == Conforms(t, v, EmptyFn, [strict |-> TRUE, tuples |-> TRUE]) => Conforms(t, v, EmptyFn, Opts0)
+\* what is read back conforms again, and is a fixed point of normalisation
+InvNormConforms == Dom => Conforms(t, nrm.v, EmptyFn, Opts0)
 
 \* G: print the case for replay (single worker)
 EmitOn == TLCGet("config").worker = 1
